@@ -832,8 +832,18 @@ fn real_main() {
     let thorough = args.str("tier", "quick") == "thorough";
     let mut total = Report::default();
     let mut bounds = serde_json::Map::new();
-    let nd: [u8; 3] = [0x00, 0x80, 0xff];
-    let other = 0x01;
+    // the byte values playing the roles "needle 1..3" and "any other byte";
+    // --palette n1,n2,n3,other (hex) selects another assignment, e.g. one in
+    // which needle and filler differ in the top bit
+    let (nd, other): ([u8; 3], u8) = match args.get("palette") {
+        None => ([0x00, 0x80, 0xff], 0x01),
+        Some(p) => {
+            let v: Vec<u8> = p.split(',').map(|x| u8::from_str_radix(x, 16).expect("palette: hex bytes")).collect();
+            assert!(v.len() == 4 && v[0] != v[3] && v[1] != v[3] && v[2] != v[3], "palette: n1,n2,n3,other with other distinct from the needles");
+            ([v[0], v[1], v[2]], v[3])
+        }
+    };
+    bounds.insert("palette".into(), json!({"needles": hex(&nd), "other": format!("{:02x}", other)}));
 
     match mode.as_str() {
         // Exhaustive Full spaces on the scaled-down instantiations.
@@ -1142,7 +1152,7 @@ fn real_main() {
                 }
                 lens.sort();
                 lens.dedup();
-                let aligns = if thorough { s.aligns() } else { s.aligns().min(2 * v) };
+                let aligns = (if thorough { s.aligns() } else { s.aligns().min(2 * v) }).min(args.num("aligns", 1 << 20) as usize);
                 let rep = par::run_items(&lens, |_, &len, r| {
                     let mut big = Arena::plain(len / 4096 + 3);
                     let mut data = vec![other; len];
